@@ -31,7 +31,7 @@ OUTSIDE = ["permission errors", "non-POSIX path semantics", "directories that ar
 FUNCTIONS_ENCODED = ["dds._api.set_store", "dds.store.LocalFileStore.*", "dds._lru_store.LRUCacheStore.*", "dds._api._eval_new_ctx", "dds._api.load"]
 FORMS = ["absolute", "relative", "trailing-slash", "nested-missing", "symlinked-parent"]
 CACHE = [None, False, True, 0, -1, 2]
-BOUNDS = {"quick": {"forms": FORMS, "cache_objects": CACHE, "chdir": "before keep / between keep and load / never", "views": "3 interleavings of two data views"}}
+BOUNDS = {"quick": {"forms": FORMS, "cache_objects": CACHE, "chdir": "before keep / between keep and load / never", "views": "3 interleavings of two data views x 2 entry styles (dds.eval of an un-kept root, top-level dds.keep)"}}
 BOUNDS["thorough"] = BOUNDS["quick"]
 LAST_DETAIL = [""]
 
@@ -141,6 +141,11 @@ def views_impl(a):
     _mkfs()
     I, D1, D2 = "/s/a/int", "/s/a/data1", "/s/a/data2"
     ok = True
+    # entry style: dds.eval of the un-kept root, or the root itself kept at /top (its own blob is then shared between the views too)
+    if h.SEL.get("topkeep"):
+        run = lambda: dds.keep("/top", p1.root)
+    else:
+        run = lambda: dds.eval(p1.root)
 
     def bad(msg):
         LAST_DETAIL[0] = "views (order %d, cache_objects=%r): %s" % (order, c, msg)
@@ -150,7 +155,7 @@ def views_impl(a):
     v1 = p1.plain()
     _proc(I, D1, c)
     tick.reset()
-    r = _try(lambda: dds.eval(p1.root))
+    r = _try(run)
     if r != ("ok", v1["/out"]):
         ok = bad("view 1 keep -> %r" % (r,))
     # view 2 has not kept anything: its paths do not exist
@@ -162,14 +167,18 @@ def views_impl(a):
     if ok and order >= 1:
         # the same code through view 2: blobs are shared, nothing is executed, view 2 gets its own paths
         tick.reset()
-        r = _try(lambda: dds.eval(p1.root))
+        r = _try(run)
         if r != ("ok", v1["/out"]) or tick.LOG:
             ok = bad("view 2 evaluation -> %r, executed %r (blobs should be shared)" % (r, list(tick.LOG)))
+        for q in ("/out", "/d/in"):
+            # every path kept by that evaluation is now served through view 2
+            if ok and _try(lambda: dds.load(q)) != ("ok", v1[q]):
+                ok = bad("after evaluating through view 2, dds.load(%r) through view 2 -> %r, expected %r" % (q, _try(lambda: dds.load(q)), v1[q]))
     if ok and order == 2:
         # changed code kept through view 2 only: view 1 keeps serving version 1
         p1.VERSION = 2
         v2 = p1.plain()
-        r = _try(lambda: dds.eval(p1.root))
+        r = _try(run)
         if r != ("ok", v2["/out"]):
             ok = bad("view 2 keep of version 2 -> %r" % (r,))
         if ok and _try(lambda: dds.load("/out")) != ("ok", v2["/out"]):
@@ -194,6 +203,7 @@ def queries(tier):
         for fd in range(5):
             qs.append({"id": "cfg.%s.%s" % (FORMS[fi], FORMS[fd]), "fn": "cfg", "sel": {"fi": fi, "fd": fd}, "timeout": 400})
     qs.append({"id": "views", "fn": "views", "sel": {}, "timeout": 400})
+    qs.append({"id": "views.topkeep", "fn": "views", "sel": {"topkeep": True}, "timeout": 400})
     return qs
 
 
